@@ -513,6 +513,14 @@ func (ef *Filter) filterTaggable(ctx context.Context, t Taggable, filterOverride
 	if err != nil {
 		return fmt.Errorf("%s: %w", op, err)
 	}
+	// a Taggable map is tracked whether or not a pointer tag addresses one of
+	// its own keys, so that the values which no tag classifies are filtered as
+	// unclassified values, like the values of any other map.
+	if tv := reflect.ValueOf(t); tm != nil && (tv.Kind() == reflect.Map || (tv.Kind() == reflect.Ptr && !tv.IsNil() && tv.Elem().Kind() == reflect.Map)) {
+		if err := tm.trackMap(&tMap{value: tv, filteredFields: map[string]struct{}{}}); err != nil {
+			return fmt.Errorf("%s: unable to track taggable map: %w", op, err)
+		}
+	}
 	for _, pt := range tags {
 		value, err := pointerstructure.Get(t, pt.Pointer)
 		if err != nil {
